@@ -33,9 +33,9 @@ CLAIMS["C09"] = {
     "text": "Lean theorems: every successful read/write/fetch primitive implies R/W/X on every touched address; a denied "
             "access is an error value with no state; permissions survive writes; non-writable bytes (constructor code, "
             "R+X segments) are invariant over every history of writes without mem_prot; constructor maps code with mask 5; "
-            "new data areas are not executable. Correspondence: all 8 masks x read/write/fetch x API accessors with a second area present.",
+            "new data areas are not executable; exec_stores_need_W: after any successful instruction (every form) layout, names and permissions are unchanged and every byte that differs lies in memory that was writable - read-only data, R+X code and unmapped addresses are never modified by any instruction. Correspondence: all 8 masks x read/write/fetch x API accessors with a second area present, also after resizes.",
     "design_ref": "DESIGN.md section 7, C09",
-    "note": COMMON_NOTE + "Instruction-level stores (PUSH/CALL/read-modify-write) are tied to the write primitive by the instruction correspondence, not by a theorem in this check.",
+    "note": COMMON_NOTE + "exec_stores_need_W covers the instruction handlers of all 312 forms (one MemStep each, proved over the whole dispatch); the built-in syscall hooks' stores are tied by correspondence.",
     "technique": "Lean 4 proof (permission lemmas over the three access primitives, invariance by induction) + differential correspondence over all masks",
 }
 CLAIMS["C10"] = {
